@@ -7,6 +7,7 @@ package main
 import (
 	"fmt"
 	"go/types"
+	"math/big"
 	"strings"
 
 	"golang.org/x/tools/go/ssa"
@@ -122,7 +123,7 @@ func initModels() {
 	reg(B+"Add", bm, bigBin(func(c *Ctx, x, y string) string { return add(x, y) }, false))
 	reg(B+"Sub", bm, bigBin(func(c *Ctx, x, y string) string { return sub(x, y) }, false))
 	reg(B+"Mul", bm, bigBin(func(c *Ctx, x, y string) string { return c.mulTerm(x, y) }, false))
-	reg(B+"Div", bm, bigBin(func(c *Ctx, x, y string) string { return app("div", x, y) }, true))
+	reg(B+"Div", bm, bigBin(func(c *Ctx, x, y string) string { return divT(x, y) }, true))
 	reg(B+"Mod", bm, bigBin(func(c *Ctx, x, y string) string { return app("mod", x, y) }, true))
 	reg(B+"Quo", bm, bigBin(func(c *Ctx, x, y string) string { return goQuo(x, y, false) }, true))
 	reg(B+"Rem", bm, bigBin(func(c *Ctx, x, y string) string { return goRem(x, y, false) }, true))
@@ -159,6 +160,24 @@ func initModels() {
 		c.assumeBeBounds(reach, r, sl[2])
 		st = bigSet(c, st, args[0][0], r)
 		return Val{args[0][0]}, st, true
+	})
+	reg(B+"SetString", bm, func(f *frame, callee *ssa.Function, args []Val, st State, reach string, site ssa.CallInstruction) (Val, State, bool) {
+		c := f.c
+		nilGuard(f, reach, site, args[0][0])
+		// literal string and base: compute the value
+		if lit, ok := c.strLit(args[1][0]); ok {
+			if base, ok2 := litInt(args[2][0]); ok2 {
+				if v, ok3 := new(big.Int).SetString(lit, int(base)); ok3 {
+					st = bigSet(c, st, args[0][0], numBig(v))
+					return Val{args[0][0], sTrue}, st, true
+				}
+				return Val{"0", sFalse}, st, true
+			}
+		}
+		okv := c.fresh("setstring_ok", "Bool")
+		nv := c.fresh("setstring_v", "Int")
+		st = bigSet(c, st, args[0][0], nv)
+		return Val{ite(okv, args[0][0], "0"), okv}, st, true
 	})
 	reg(B+"Cmp", nil, func(f *frame, callee *ssa.Function, args []Val, st State, reach string, site ssa.CallInstruction) (Val, State, bool) {
 		nilGuard(f, reach, site, args[0][0], args[1][0])
@@ -228,6 +247,18 @@ func initModels() {
 		z, x, y, m := args[0][0], args[1][0], args[2][0], args[3][0]
 		nilGuard(f, reach, site, z, x, y)
 		xv, yv := bigGet(c, st, x), bigGet(c, st, y)
+		mIsZero := m == "0"
+		if !mIsZero {
+			if ml, ok := litBig(bigGet(c, st, m)); ok && ml.Sign() == 0 {
+				mIsZero = true
+			}
+		}
+		if xl, ok := litBig(xv); ok && mIsZero {
+			if yl, ok2 := litBig(yv); ok2 && yl.Sign() >= 0 && yl.BitLen() <= 16 {
+				st = bigSet(c, st, z, numBig(new(big.Int).Exp(xl, yl, nil)))
+				return Val{z}, st, true
+			}
+		}
 		r := app(c.uf("bigexp", []string{"Int", "Int", "Int"}, "Int"), xv, yv, ite(eq(m, "0"), "0", bigGet(c, st, m)))
 		rb := c.bind("exp", "Int", r)
 		c.assume(reach, implies(and(ge(xv, "0")), ge(rb, "0")))
